@@ -834,10 +834,14 @@ class NonMementoFunctionHashRule(HashRule):
         first_level: bool,
     ):
         # noinspection PyUnresolvedReferences
+        name = obj.__module__ + ":" + obj.__qualname__
+        if "<" in obj.__qualname__:
+            # Lambdas (and other anonymous functions) of one module all share one qualified
+            # name: tell them apart by the symbol that refers to them, or only one of them
+            # would survive in the rule set, and which one would depend on set iteration order.
+            name += "@" + symbol
         super().__init__(
-            key="Function;{};{}".format(
-                parent_symbol, obj.__module__ + ":" + obj.__qualname__
-            ),
+            key="Function;{};{}".format(parent_symbol, name),
             parent_symbol=parent_symbol,
             symbol=symbol,
             first_level=first_level,
